@@ -24,7 +24,7 @@ from ..mir import fmt, walk, const_val
 from . import C03, C10, C12, hashctx
 
 EXPLANATION = __doc__
-TECHNIQUE = "belief-contradiction rule on overflow-asserted additions, accumulator classification table, const-generic / length sweeps of guard control flow, must-set typestate"
+TECHNIQUE = "belief-contradiction rule on overflow-asserted additions, accumulator classification table, const-generic / length sweeps of guard control flow, must-set typestate; level (type-state) dataflow over every fe32 operation call site of the crate against the proved 3xTIGHT operand contract, who-may-access rule for Fe limbs; interval abstract interpretation of limb bounds"
 
 
 def cn(fn, op):
